@@ -118,6 +118,8 @@ fn main() {
                 out: arg(&args, "--out").expect("--out"),
                 replay_dir: arg(&args, "--replay-dir").expect("--replay-dir"),
                 only_run: arg(&args, "--only-run").map(|s| s.parse().expect("only-run")),
+                from: arg(&args, "--from").map(|s| s.parse().expect("from")),
+                upto: arg(&args, "--upto").map(|s| s.parse().expect("upto")),
                 skip: arg(&args, "--skip")
                     .map(|s| s.split(',').filter(|x| !x.is_empty()).map(|x| x.parse().expect("skip")).collect())
                     .unwrap_or_default(),
